@@ -214,6 +214,14 @@ func vBadKeyText(id, format string) string {
 			return `command="id" ` + good.ssh
 		case "sshcertaskey":
 			return "ssh-rsa-cert-v01@openssh.com " + strings.SplitN(good.ssh, " ", 3)[1] + "\n"
+		case "certblob":
+			// a line labelled as a plain key whose blob is a whole OpenSSH CERTIFICATE (parsers go by the blob)
+			sp, _ := ssh.NewPublicKey(good.pub)
+			cert := &ssh.Certificate{Key: sp, Serial: 7, CertType: ssh.UserCert, KeyId: "x", ValidPrincipals: []string{"alice"},
+				ValidAfter: 0, ValidBefore: ssh.CertTimeInfinity}
+			signer, _ := ssh.NewSignerFromKey(vAttackerKey)
+			vMust(cert.SignCert(rand.Reader, signer))
+			return "ssh-ed25519 " + base64.StdEncoding.EncodeToString(cert.Marshal()) + " x\n"
 		case "binary":
 			return string(junk)
 		case "nullbytes":
@@ -235,7 +243,7 @@ func vBadKeyText(id, format string) string {
 			return string(pem.EncodeToMemory(&pem.Block{Type: "PUBLIC KEY", Bytes: make([]byte, 1<<20)}))
 		case "sshoptions":
 			return `command="id" ` + good.ssh
-		case "sshcertaskey":
+		case "sshcertaskey", "certblob":
 			return good.ssh
 		case "binary":
 			return string(junk)
@@ -259,7 +267,7 @@ func vBadKeyText(id, format string) string {
 			return enc(make([]byte, 1<<20))
 		case "sshoptions":
 			return `command="id" ` + good.ssh
-		case "sshcertaskey":
+		case "sshcertaskey", "certblob":
 			return enc([]byte(good.ssh))
 		case "binary":
 			return string(junk)
